@@ -13,6 +13,10 @@ fn main() {
         usage();
     }
     let id = args[0].clone();
+    if id == "warm" {
+        engine::e2::warm();
+        return;
+    }
     let mut tier = match std::env::var("VERIF_TIER").as_deref() {
         Ok("thorough") => Tier::Thorough,
         _ => Tier::Quick,
